@@ -430,7 +430,10 @@ def xbuf_goal(r):
     return None
 
 
-PROOF_BUDGET_S = 4.0
+import os as _os
+# wall-clock budget of one entailment search; the thorough tier searches longer (set by the CLI through the environment,
+# so that worker processes see it too)
+PROOF_BUDGET_S = float(_os.environ.get("SPVERIF_PROOF_BUDGET", "4") or 4)
 
 
 def budgeted_prove(facts, goal, max_cases=None, budget=None):
